@@ -11,6 +11,7 @@
 //           14 reference_wrapper shapes  15 pair with reference members  16 invoke shapes  17 not_fn shapes
 //           18 tuple construction shapes  19 further tuple-like sources / reference tuples
 //           20 swap through the element type's own (ADL) swap  21 class element compared with a different element type
+//           22 element with < only (no ==): ordering of pairs
 // element kinds: 0 int  1 int const  2 move-only  3 copy-only  4 int&  5 int&&  6 int const&
 #include "vf.hpp"
 #include "vf_contract.hpp"
@@ -1066,6 +1067,7 @@ void probe()
 
 // ============================================================================================ 19 further tuple-like sources / reference tuples
 //           20 swap through the element type's own (ADL) swap  21 class element compared with a different element type
+//           22 element with < only (no ==): ordering of pairs
 #elif VF_PROBE == 19
 constexpr char const* PNAME = "tuple-like-sources";
 void probe()
@@ -1251,6 +1253,7 @@ void probe()
 }
 
 // ============================================================================================ 21 class element compared with a different element type
+//           22 element with < only (no ==): ordering of pairs
 #elif VF_PROBE == 21
 constexpr char const* PNAME = "heterogeneous-class-element";
 template <typename E1, typename E2, typename S1, typename S2>
@@ -1308,6 +1311,47 @@ void probe()
                 vf::eq_int("tuple(Us&&...).element0", etl::get<0>(et).v, std::get<0>(st).v);
                 cover("converting");
     #endif
+            }
+        }
+    }
+}
+
+// ============================================================================================ 22 element with < only (no ==): ordering of pairs
+#elif VF_PROBE == 22
+constexpr char const* PNAME = "element-with-less-only";
+void probe()
+{
+    for (int a = 0; a < 3; ++a) {
+        for (int b = 0; b < 3; ++b) {
+            for (int p = 0; p < 3; ++p) {
+                for (int q = 0; q < 3; ++q) {
+                    char sit[64];
+                    std::snprintf(sit, sizeof sit, "first-%s,second-%s", a < b ? "less" : (a > b ? "greater" : "tie"), p < q ? "less" : (p > q ? "greater" : "tie"));
+    #if VF_KIND == 0
+                    g_subject = "pair<OnlyLess,int>";
+                    etl::pair<OnlyLess, int> const e1(OnlyLess{a}, p), e2(OnlyLess{b}, q);
+                    std::pair<OnlyLess, int> const s1(OnlyLess{a}, p), s2(OnlyLess{b}, q);
+    #elif VF_KIND == 1
+                    g_subject = "pair<int,OnlyLess>";
+                    etl::pair<int, OnlyLess> const e1(a, OnlyLess{p}), e2(b, OnlyLess{q});
+                    std::pair<int, OnlyLess> const s1(a, OnlyLess{p}), s2(b, OnlyLess{q});
+    #else
+                    g_subject = "pair<OnlyLess,OnlyLess>";
+                    etl::pair<OnlyLess, OnlyLess> const e1(OnlyLess{a}, OnlyLess{p}), e2(OnlyLess{b}, OnlyLess{q});
+                    std::pair<OnlyLess, OnlyLess> const s1(OnlyLess{a}, OnlyLess{p}), s2(OnlyLess{b}, OnlyLess{q});
+    #endif
+                    crumb("operator<", sit);
+                    vf::eq_bool("<", e1 < e2, s1 < s2);
+                    vf::eq_bool("<(swapped)", e2 < e1, s2 < s1);
+                    crumb("operator<=", sit);
+                    vf::eq_bool("<=", e1 <= e2, s1 <= s2);
+                    crumb("operator>", sit);
+                    vf::eq_bool(">", e1 > e2, s1 > s2);
+                    crumb("operator>=", sit);
+                    vf::eq_bool(">=", e1 >= e2, s1 >= s2);
+                    vf::eq_bool(">=(swapped)", e2 >= e1, s2 >= s1);
+                    cover("pair ordering with a <-only element");
+                }
             }
         }
     }
